@@ -94,6 +94,8 @@ pub struct Driver {
     pub dump_enabled: bool,
     pub list_files: bool,
     expect_err: bool,
+    /// appended to every written value (multi-tree runs: makes the trees' data differ)
+    pub vsuffix: Option<u8>,
 }
 
 fn ty_code(t: ValueType) -> &'static str {
@@ -138,6 +140,7 @@ impl Driver {
             dump_enabled: true,
             list_files: true,
             expect_err: false,
+            vsuffix: None,
         }
     }
 
@@ -181,6 +184,11 @@ impl Driver {
         config
     }
 
+    pub fn share(&mut self, cache: Arc<Cache>, dt: Option<Arc<DescriptorTable>>) {
+        self.cache = cache;
+        self.dt = dt;
+    }
+
     pub fn open(&mut self) -> Result<(), String> {
         lsm_tree::verif::set_clock(Some(std::time::Duration::from_secs(self.clock)));
         let t = self.config().open().map_err(|e| format!("{e:?}"))?;
@@ -215,6 +223,11 @@ impl Driver {
     }
 
     fn write(&mut self, k: &[u8], v: &[u8], ty: ValueType) {
+        let mut vv = v.to_vec();
+        if let (Some(x), ValueType::Value) = (self.vsuffix, ty) {
+            vv.push(x);
+        }
+        let v: &[u8] = &vv;
         let s = self.seqno.next();
         let t = self.tree();
         match ty {
@@ -370,9 +383,13 @@ impl Driver {
                     let mut ing = t.ingestion().map_err(|e| format!("{e:?}"))?;
                     for it in items {
                         match it {
-                            IngItem::Put(k, v) => ing
-                                .write(k.clone(), v.clone())
-                                .map_err(|e| format!("{e:?}"))?,
+                            IngItem::Put(k, v) => {
+                                let mut vv = v.clone();
+                                if let Some(x) = self.vsuffix {
+                                    vv.push(x);
+                                }
+                                ing.write(k.clone(), vv).map_err(|e| format!("{e:?}"))?;
+                            }
                             IngItem::Del(k) => ing
                                 .write_tombstone(k.clone())
                                 .map_err(|e| format!("{e:?}"))?,
@@ -387,7 +404,13 @@ impl Driver {
                 // runner reads it from the new table's gseq in the dump
                 for it in items {
                     let _ = match it {
-                        IngItem::Put(k, v) => writeln!(self.out, "IW {} V {}", hex(k), hex(v)),
+                        IngItem::Put(k, v) => {
+                            let mut vv = v.clone();
+                            if let Some(x) = self.vsuffix {
+                                vv.push(x);
+                            }
+                            writeln!(self.out, "IW {} V {}", hex(k), hex(&vv))
+                        }
                         IngItem::Del(k) => writeln!(self.out, "IW {} T -", hex(k)),
                         IngItem::WDel(k) => writeln!(self.out, "IW {} W -", hex(k)),
                     };
@@ -440,6 +463,13 @@ impl Driver {
                 }
             }
             Op::GetMax(k) => self.get(k, SeqNo::MAX),
+            Op::GetAt(k, s) => self.get(k, *s),
+            Op::RangeAt(lo, hi, pulls, s) => {
+                let it = self
+                    .tree()
+                    .range::<Vec<u8>, _>((lo.to_std(), hi.to_std()), *s, None);
+                self.scan("range", format!("{} {}", lo.text(), hi.text()), *s, pulls, it);
+            }
             Op::Range(lo, hi, pulls, s) => {
                 if let Some(seqno) = self.snap_seqno(s) {
                     let it = self
@@ -812,3 +842,56 @@ pub fn run_history(h: &History, dir: &Path, dump: bool) -> String {
 
 #[allow(dead_code)]
 pub fn bnd_unused(_: &Bnd) {}
+
+
+/// Runs the same history on several trees in ONE process, operation by operation in
+/// lock step. `shared`: all trees share one small block cache and one descriptor table and
+/// hold different data (value suffix = tree index) while their table ids coincide.
+pub fn run_multi(h: &History, cfgs: &[TreeCfg], base: &Path, shared: bool, cache_bytes: u64, dt_cap: usize) -> Vec<String> {
+    let cache = Arc::new(Cache::with_capacity_bytes(cache_bytes));
+    let dt = if dt_cap == 0 { None } else { Some(Arc::new(DescriptorTable::new(dt_cap))) };
+    let mut drivers: Vec<Driver> = Vec::new();
+    for (j, c) in cfgs.iter().enumerate() {
+        let dir = base.join(format!("t{j}"));
+        let _ = std::fs::remove_dir_all(&dir);
+        std::fs::create_dir_all(&dir).expect("mkdir");
+        let mut d = Driver::new(&dir, c.clone());
+        if shared {
+            d.share(cache.clone(), dt.clone());
+            d.vsuffix = Some(j as u8 + 1);
+        }
+        let _ = writeln!(d.out, "C {}", c.text());
+        if let Err(e) = d.open() {
+            let _ = writeln!(d.out, "FATAL open {e}");
+        } else {
+            d.dump();
+        }
+        drivers.push(d);
+    }
+    let mut dead = vec![false; drivers.len()];
+    for (i, op) in h.ops.iter().enumerate() {
+        for (j, d) in drivers.iter_mut().enumerate() {
+            if dead[j] || d.tree.is_none() {
+                continue;
+            }
+            let r = std::panic::catch_unwind(std::panic::AssertUnwindSafe(|| d.exec(op)));
+            if let Err(p) = r {
+                let msg = p
+                    .downcast_ref::<String>()
+                    .cloned()
+                    .or_else(|| p.downcast_ref::<&str>().map(|s| (*s).to_string()))
+                    .unwrap_or_default();
+                let _ = writeln!(d.out, "PANIC {i} {}", msg.replace(['\n', ' '], "_"));
+                dead[j] = true;
+            }
+        }
+    }
+    drivers
+        .into_iter()
+        .map(|mut d| {
+            let _ = std::panic::catch_unwind(std::panic::AssertUnwindSafe(|| d.close()));
+            let _ = writeln!(d.out, "END");
+            d.out
+        })
+        .collect()
+}
